@@ -12,7 +12,7 @@
   argument list of `compute_function_aligned`; `obsA` is what is observed of each, `Inv anyFP h live`
   says that the live objects are well formed and separated.
 -/
-import Ladybug.Proofs.C14Comp
+import Ladybug.Proofs.C14Epw
 
 namespace LbHeap
 
@@ -154,6 +154,119 @@ theorem C14_frame_comp_metadata {h h' : Heap} {live : List Nat} {w k : Nat} {v :
     Inv anyFP h' live ∧ ∀ b ∈ live, b ≠ w → obsA h' b = obsA h b :=
   local_inv anyFP inv hw (compMetaSet_local inv.1 (inv.2.1 w hw) e)
 
+/-! ### EPW -/
+
+theorem C14_epw_new {h h' : Heap} {live : List Nat} {w : Nat} (inv : Inv anyFP h live)
+    {ap dts : List Nat} {db dp : List Rat} (e : epwNew h ap dts db dp = .ok (h', w)) :
+    Inv anyFP h' (live ++ [w]) ∧ (∀ b ∈ live, obsA h' b = obsA h b) ∧ h.next ≤ w :=
+  C14_wea_fresh_separated inv (epwNew_fresh inv.1 e)
+
+/-- `EPW.convert_to_ip()` / `convert_to_si()` edits only the EPW's own collections. -/
+theorem C14_frame_epw_convert {h h' : Heap} {live : List Nat} {w : Nat} {toIp : Bool}
+    (inv : Inv anyFP h live) (hw : w ∈ live) (e : epwConvert h w toIp = .ok h') :
+    Inv anyFP h' live ∧ ∀ b ∈ live, b ≠ w → obsA h' b = obsA h b :=
+  local_inv anyFP inv hw (epwConvert_local inv.1 (inv.2.1 w hw) e)
+
+/-- The fields of an EPW are in the units its IP flag says (F when IP; the model has the temperature
+    fields only). -/
+def EpwUnitsConsistent (h : Heap) (x : Comp) : Prop :=
+  ∀ mb ∈ x.members, ∀ o, obs h mb = some o → (epwIsIp x = true → o.unit = 1)
+
+/-- **`EPW.to_file_string()` leaves the object as it was, also when it fails** (f030132).  The call
+    converts an IP object to SI, rotates the value lists of the point-in-time fields in place, writes, and
+    undoes both in a `finally` block.  In the model the heap after the call is the same whether the export
+    succeeded (`exported = true`) or raised `ValueError` (`false`); every live object – the EPW included,
+    with every field collection's values, unit, period, metadata – is observed as before, and the live
+    objects are still separated. -/
+theorem C14_epw_to_file_string_restores {h h' : Heap} {live : List Nat} {w : Nat} {x : Comp}
+    {exported : Bool} (inv : Inv anyFP h live) (hw : w ∈ live) (hk : h.cells w = some (.comp x))
+    (hu : EpwUnitsConsistent h x) (e : epwToFileString h w = .ok (exported, h')) :
+    Inv anyFP h' live ∧ ∀ b ∈ live, obsA h' b = obsA h b := by
+  have cty : CompTyped h x := by
+      have ty : TypedA h w := inv.2.1 w hw
+      simpa only [TypedA, hk] using ty
+  unfold epwToFileString at e
+  simp only [getComp, hk] at e
+  split at e
+  · rename_i h1 e1
+    have eh : h1 = h' := (Prod.mk.inj (Except.ok.inj e)).2
+    subst eh
+    have r := export_restores inv.1 hk cty (export_ops_ok (epwIsIp x))
+      (fun mb hmb o ho => export_ops_restore (epwIsIp x) o (hu mb hmb o ho)) e1
+    have li := local_inv anyFP inv hw r.1
+    refine ⟨li.1, fun b hb => ?_⟩
+    by_cases eb : b = w
+    · subst eb; exact r.2
+    · exact li.2 b hb eb
+  · cases e
+
+/-- **`EPW.to_wea()` leaves the object as it was, also when it fails** (77cbf95). -/
+theorem C14_epw_to_wea_restores {h h' : Heap} {live : List Nat} {w : Nat} {x : Comp}
+    {exported : Bool} {hoys : List Nat} (inv : Inv anyFP h live) (hw : w ∈ live)
+    (hk : h.cells w = some (.comp x)) (hu : EpwUnitsConsistent h x)
+    (e : epwToWea h w hoys = .ok (exported, h')) :
+    Inv anyFP h' live ∧ ∀ b ∈ live, obsA h' b = obsA h b := by
+  have cty : CompTyped h x := by
+      have ty : TypedA h w := inv.2.1 w hw
+      simpa only [TypedA, hk] using ty
+  unfold epwToWea at e
+  simp only [getComp, hk] at e
+  split at e
+  · rename_i h1 e1
+    have eh : h1 = h' := (Prod.mk.inj (Except.ok.inj e)).2
+    subst eh
+    have r := export_restores inv.1 hk cty (wea_ops_ok (epwIsIp x))
+      (fun mb hmb o ho => wea_ops_restore (epwIsIp x) o (hu mb hmb o ho)) e1
+    have li := local_inv anyFP inv hw r.1
+    refine ⟨li.1, fun b hb => ?_⟩
+    by_cases eb : b = w
+    · subst eb; exact r.2
+    · exact li.2 b hb eb
+  · cases e
+
+/-- Without the hypothesis on the units the exports are still local steps: nothing but the EPW itself can
+    change (this is what the history theorem uses). -/
+theorem C14_frame_epw_export {h h' : Heap} {live : List Nat} {w : Nat} {exported : Bool}
+    (inv : Inv anyFP h live) (hw : w ∈ live)
+    (e : epwToFileString h w = .ok (exported, h') ∨ ∃ hoys, epwToWea h w hoys = .ok (exported, h')) :
+    Inv anyFP h' live ∧ ∀ b ∈ live, b ≠ w → obsA h' b = obsA h b := by
+  have key : ∀ ops x, h.cells w = some (.comp x) →
+      foldMembers (fun h mb => mutSeq h mb ops) h x.members = .ok h' →
+      Inv anyFP h' live ∧ ∀ b ∈ live, b ≠ w → obsA h' b = obsA h b := by
+    intro ops x hk e1
+    have cty : CompTyped h x := by
+      have ty : TypedA h w := inv.2.1 w hw
+      simpa only [TypedA, hk] using ty
+    exact local_inv anyFP inv hw (fold_local x.members inv.1 hk cty (fun _ hmb => hmb) e1).1
+  rcases e with e | ⟨hoys, e⟩
+  · unfold epwToFileString at e
+    split at e
+    · rename_i x hx
+      split at e
+      · rename_i h1 e1
+        have eh : h1 = h' := (Prod.mk.inj (Except.ok.inj e)).2
+        subst eh
+        exact key _ x (getComp_some hx) e1
+      · cases e
+    · cases e
+  · unfold epwToWea at e
+    split at e
+    · rename_i x hx
+      split at e
+      · rename_i h1 e1
+        have eh : h1 = h' := (Prod.mk.inj (Except.ok.inj e)).2
+        subst eh
+        exact key _ x (getComp_some hx) e1
+      · cases e
+    · cases e
+
+/-- `EPW.sky_temperature` (with the proposed repair fixes/C14_epw_sky_temperature_metadata.patch): a new
+    collection with its own copy of the EPW's metadata. -/
+theorem C14_epw_sky_separated {h h' : Heap} {live : List Nat} {w r : Nat} {ap dts : List Nat}
+    {vals : List Rat} (inv : Inv anyFP h live) (e : epwSky h w ap dts vals = .ok (h', r)) :
+    Inv anyFP h' (live ++ [r]) ∧ (∀ b ∈ live, obsA h' b = obsA h b) ∧ h.next ≤ r :=
+  C14_wea_fresh_separated inv (freshA_of_coll (epwSky_fresh inv.1 e))
+
 theorem build_copying (h : Heap) (cls : Cls) (mt vd : Bool) (dt u : Nat) (ap : List Nat)
     (md : List (Nat × OV)) (dts : List Nat) (vals : List Rat) :
     NewSpec.Copying h ⟨.new dt u (.new ap) (.new md), newVals mt vals, dts, mt, cls, vd⟩ := by
@@ -244,6 +357,14 @@ inductive Step
   | compMember (i k : Nat) (op : MOp)
   /-- `live[i].metadata[k] = v` -/
   | compMetaSet (i k : Nat) (v : MV)
+  /-- `EPW.from_missing_values()` with two temperature fields -/
+  | epwNew (ap dts : List Nat) (db dp : List Rat)
+  | epwConvert (i : Nat) (toIp : Bool)
+  /-- `live[i].to_file_string()` (succeeding or not) -/
+  | epwToFileString (i : Nat)
+  /-- `live[i].to_wea(path, hoys)` (succeeding or not) -/
+  | epwToWea (i : Nat) (hoys : List Nat)
+  | epwSky (i : Nat) (ap dts : List Nat) (vals : List Rat)
 
 structure St where
   h : Heap
@@ -329,6 +450,38 @@ def step (st : St) : Step → St
       match compMetaSet st.h c k v with
       | .ok h' => ⟨h', st.live⟩
       | .error _ => st
+  | .epwNew ap dts db dp =>
+    match epwNew st.h ap dts db dp with
+    | .ok (h', r) => ⟨h', st.live ++ [r]⟩
+    | .error _ => st
+  | .epwConvert i t =>
+    match st.live[i]? with
+    | none => st
+    | some c =>
+      match epwConvert st.h c t with
+      | .ok h' => ⟨h', st.live⟩
+      | .error _ => st
+  | .epwToFileString i =>
+    match st.live[i]? with
+    | none => st
+    | some c =>
+      match epwToFileString st.h c with
+      | .ok (_, h') => ⟨h', st.live⟩
+      | .error _ => st
+  | .epwToWea i hoys =>
+    match st.live[i]? with
+    | none => st
+    | some c =>
+      match epwToWea st.h c hoys with
+      | .ok (_, h') => ⟨h', st.live⟩
+      | .error _ => st
+  | .epwSky i ap dts vals =>
+    match st.live[i]? with
+    | none => st
+    | some c =>
+      match epwSky st.h c ap dts vals with
+      | .ok (h', r) => ⟨h', st.live ++ [r]⟩
+      | .error _ => st
 
 def run (st : St) (l : List Step) : St := l.foldl step st
 
@@ -338,6 +491,9 @@ def Step.touches (j : Nat) : Step → Bool
   | .listMut i _ => i = j
   | .compMember i _ _ => i = j
   | .compMetaSet i _ _ => i = j
+  | .epwConvert i _ => i = j
+  | .epwToFileString i => i = j
+  | .epwToWea i _ => i = j
   | _ => false
 
 /-- Separated, and no object listed twice. -/
@@ -530,13 +686,73 @@ theorem step_good (st : St) (g : Good st) (s : Step) :
         simp only [Step.touches, decide_eq_false_iff_not] at ht
         exact hp.2 b (List.mem_of_getElem? hj) (index_ne nd hc hj ht)
       · exact stay
+  | epwNew ap dts db dp =>
+    simp only [step]
+    split
+    · rename_i h' r e
+      have hp := C14_epw_new inv e
+      exact ⟨⟨hp.1, nodup_append_fresh inv nd hp.2.2⟩, ⟨[r], rfl⟩,
+        fun j b hj _ => hp.2.1 b (List.mem_of_getElem? hj)⟩
+    · exact stay
+  | epwConvert i t =>
+    simp only [step]
+    split
+    · exact stay
+    · rename_i c hc
+      have hcl : c ∈ st.live := List.mem_of_getElem? hc
+      split
+      · rename_i h' e
+        have hp := C14_frame_epw_convert inv hcl e
+        refine ⟨⟨hp.1, nd⟩, ⟨[], by simp⟩, fun j b hj ht => ?_⟩
+        simp only [Step.touches, decide_eq_false_iff_not] at ht
+        exact hp.2 b (List.mem_of_getElem? hj) (index_ne nd hc hj ht)
+      · exact stay
+  | epwToFileString i =>
+    simp only [step]
+    split
+    · exact stay
+    · rename_i c hc
+      have hcl : c ∈ st.live := List.mem_of_getElem? hc
+      split
+      · rename_i ex h' e
+        have hp := C14_frame_epw_export inv hcl (Or.inl e)
+        refine ⟨⟨hp.1, nd⟩, ⟨[], by simp⟩, fun j b hj ht => ?_⟩
+        simp only [Step.touches, decide_eq_false_iff_not] at ht
+        exact hp.2 b (List.mem_of_getElem? hj) (index_ne nd hc hj ht)
+      · exact stay
+  | epwToWea i hoys =>
+    simp only [step]
+    split
+    · exact stay
+    · rename_i c hc
+      have hcl : c ∈ st.live := List.mem_of_getElem? hc
+      split
+      · rename_i ex h' e
+        have hp := C14_frame_epw_export inv hcl (Or.inr ⟨hoys, e⟩)
+        refine ⟨⟨hp.1, nd⟩, ⟨[], by simp⟩, fun j b hj ht => ?_⟩
+        simp only [Step.touches, decide_eq_false_iff_not] at ht
+        exact hp.2 b (List.mem_of_getElem? hj) (index_ne nd hc hj ht)
+      · exact stay
+  | epwSky i ap dts vals =>
+    simp only [step]
+    split
+    · exact stay
+    · split
+      · rename_i h' r e
+        have hp := C14_epw_sky_separated inv e
+        exact ⟨⟨hp.1, nodup_append_fresh inv nd hp.2.2⟩, ⟨[r], rfl⟩,
+          fun j b hj _ => hp.2.1 b (List.mem_of_getElem? hj)⟩
+      · exact stay
 
 /-- **Non-interference for every history.**  Start from separated live objects (e.g. nothing at all).
     Run ANY sequence – of any length – of steps of the fixed code: building sources (from literals or
     from a list the caller holds), deriving operations, WindRose constructions, mutators of collections,
     the caller creating and editing his own lists and argument lists, Wea constructions (`from_dict`,
     `duplicate`, `filter_by_*`), collections derived from a Wea, mutators applied to a Wea's collections
-    or to its metadata; each step addressed to any live object (sources or earlier results).  Then (1) the live objects are still separated, and (2) every
+    or to its metadata, EPW objects with their unit conversions and exports (`to_file_string`, `to_wea`,
+    which count as edits of the EPW here; that they in fact restore it is
+    `C14_epw_to_file_string_restores` / `C14_epw_to_wea_restores`); each step addressed to any live
+    object (sources or earlier results).  Then (1) the live objects are still separated, and (2) every
     object that was live at the start and was never itself edited in place reports exactly what it
     reported at the start – whatever was derived from it and whatever was done to the derived objects,
     and vice versa (apply the theorem from the state in which the derived object appeared).  For a list
@@ -739,5 +955,65 @@ def cxAliasList (copy : Bool) : Option (ObsAny × ObsAny) :=
 theorem C14_aliased_values_list_counterexample :
     cxAliasList false = some (.list [7, 8], .list [0, 8]) ∧
     cxAliasList true = some (.list [7, 8], .list [7, 8]) := by decide
+
+/-! ### Wea and EPW: non-vacuity and the container semantics of `Wea(...)` -/
+
+/-- The values of the member collections of composite `live[i]`, and the size of its metadata. -/
+def memberVals (st : St) (i : Nat) : Option (Nat × List (Option (List Rat))) :=
+  match st.live[i]?.map (obsA st.h) with
+  | some (.comp o) => some (o.md.length, o.members.map fun m => m.map (·.vals))
+  | _ => none
+
+/-- A Wea from `from_dict` (two hours), a collection derived from it whose metadata is then edited, a
+    filtered Wea, an edit of the first Wea's direct-normal collection: three live objects; the Wea's own
+    metadata still has three keys, the filtered Wea still reports the unedited value 7. -/
+example :
+    let fin := run ⟨Heap.empty, []⟩
+      [.weaNew ["'s'", "'c'", "'t'"] [1, 0, 0] [1, 1, 0, 1, 1, 1, 1, 0] [0, 60] [7, 8] [1, 2] false,
+       .weaDerived 0 12 true [3, 4], .mutate 1 (.metaSet 1 (.tok "9")),
+       .weaFilter 0 (.filterPattern [true]), .compMember 0 0 (.setItem 0 0)]
+    fin.live.length = 3 ∧ memberVals fin 0 = some (3, [some [0, 8], some [1, 2]]) ∧
+      memberVals fin 2 = some (3, [some [7, 8], some [1, 2]]) := by decide
+
+/-- `w = Wea(loc, dni, dhi)` with a collection the caller holds, then `dni[0] = 0`: first value of the
+    Wea's direct-normal collection before and after. -/
+def cxWeaInit : Option (Option (List Rat) × Option (List Rat)) :=
+  let (h0, d) := build Heap.empty .hd true true 10 7 [1, 1, 0, 1, 1, 1, 1, 0] [] [0, 60] [7, 8]
+  let (h1, f) := build h0 .hd true true 11 7 [1, 1, 0, 1, 1, 1, 1, 0] [] [0, 60] [1, 2]
+  match weaInit h1 ["'s'", "'c'", "'t'"] d f with
+  | .ok (h2, w) =>
+    match mutate .fixed h2 d (.setItem 0 0) with
+    | .ok h3 =>
+      let dni := fun (h : Heap) => match obsA h w with
+        | .comp o => (o.members.head?.bind id).map (·.vals)
+        | _ => none
+      some (dni h2, dni h3)
+    | .error _ => none
+  | .error _ => none
+
+/-- **`Wea(location, dni, dhi)` keeps the caller's collections** (container semantics, by design): an
+    edit of `dni` shows in the Wea.  This constructor is therefore *not* a step of
+    `C14_noninterference`; the constructors that build their own collections, `duplicate` and the
+    filters are. -/
+theorem C14_wea_init_keeps_references_counterexample :
+    cxWeaInit = some (some [7, 8], some [0, 8]) := by decide
+
+def exEpw0 : St :=
+  run ⟨Heap.empty, []⟩ [.epwNew [1, 1, 0, 1, 1, 1, 1, 0] [0, 60] [5, 10] [0, -5], .epwConvert 0 true]
+
+/-- `to_file_string` on a two-hour EPW in IP units: `(exported, the EPW reads as before)`. -/
+def exEpwFlags : Bool × Bool :=
+  match exEpw0.live[0]? with
+  | some e =>
+    match epwToFileString exEpw0.h e with
+    | .ok (exported, h') => (exported, decide (obsA h' e = obsA exEpw0.h e))
+    | .error _ => (true, false)
+  | none => (true, false)
+
+/-- A two-hour "EPW" in IP units (so the export fails: not a full year): `to_file_string` reports the
+    failure and the object – in F: 41, 50 / 32, 23 – reads what it read before; instance of
+    `C14_epw_to_file_string_restores` evaluated by the kernel. -/
+example : exEpwFlags = (false, true) ∧
+    memberVals exEpw0 0 = some (0, [some [41, 50], some [32, 23]]) := by decide +kernel
 
 end LbHeap
